@@ -11,7 +11,8 @@ RULE = ('case = history over the global default configuration: set_default_confi
         'depth, max_seq_len, sort_dict_keys}) / get_default_config() / print(value, entry point, explicitly passed subset '
         'of {indent, width, ribbon_width, depth, max_seq_len, sort_dict_keys}, end string) with entry point in {pformat, '
         'pprint to a StringIO, pprint to a redirected sys.stdout, cpprint with colour off, cpprint with colour on (SGR '
-        'stripped), pretty_repr of a registered type, PrettyPrinter(**explicit).pformat, PrettyPrinter(**explicit).pprint}. '
+        'stripped), pretty_repr of a registered type, PrettyPrinter(**explicit).pformat, PrettyPrinter(**explicit).pprint, '
+        'pformat / pprint with indent, width, depth passed positionally}. '
         'Exhaustive: every single setting explicit-vs-default x every entry point after each single-setting '
         'set_default_config; random: Hypothesis histories of up to 10 ops. Model: a dict mirrors the defaults; reference '
         'text = pformat(value, **every effective setting passed explicitly); every entry point must produce exactly that '
@@ -31,7 +32,8 @@ DOMAIN = {
     'sort_dict_keys': [False, True],
 }
 DEFAULTABLE = ['width', 'ribbon_width', 'depth', 'max_seq_len', 'sort_dict_keys']
-ENTRIES = ['pformat', 'pprint_stream', 'pprint_stdout', 'cpprint_off', 'cpprint_on', 'pretty_repr', 'PP.pformat', 'PP.pprint']
+ENTRIES = ['pformat', 'pprint_stream', 'pprint_stdout', 'cpprint_off', 'cpprint_on', 'pretty_repr', 'PP.pformat', 'PP.pprint',
+           'pformat_positional', 'pprint_positional']
 VALUES = [
     ['dict', [[['str', 'b'], ['list', [['int', 1], ['int', 2], ['int', 3]]]], [['str', 'a'], ['tuple', [['str', 'x y'], ['none']]]], [['str', 'c'], ['int', 0]]]],
     ['list', [['list', [['list', [['int', 1], ['str', 'deep']]], ['int', 2]]], ['dict', [[['int', 2], ['int', 1]], [['int', 1], ['int', 2]]]], ['str', 'lorem ipsum dolor sit amet']]],
@@ -103,6 +105,21 @@ def run_entry(entry, value, explicit, end):
     import colorful
     if entry == 'pformat':
         return pp.pformat(value, **explicit) + end
+    if entry in ('pformat_positional', 'pprint_positional'):
+        # the documented positional order: pformat(object, indent, width, depth) / pprint(object, stream, indent, width, depth);
+        # a prefix of the explicit settings goes positionally, the rest by keyword
+        rest = dict(explicit)
+        pos = []
+        for name in ('indent', 'width', 'depth'):
+            if name in rest:
+                pos.append(rest.pop(name))
+            else:
+                break
+        if entry == 'pformat_positional':
+            return pp.pformat(value, *pos, **rest) + end
+        s = io.StringIO()
+        pp.pprint(value, s, *pos, end=end, **rest)
+        return s.getvalue()
     if entry == 'pprint_stream':
         s = io.StringIO()
         pp.pprint(value, stream=s, end=end, **explicit)
